@@ -17,7 +17,7 @@ func init() {
 		Doc: "for every type with a sync.Once field: W = fields stored (transitively, incl. the context of the workers it starts) by the once-guarded initialiser; every interface method of the type (Next, Series, GetSeries, ...) that reads a member of W, directly or through its static callees, does so only after the once.Do call (or a wrapper that performs it)"})
 	register(&Rule{ID: "R-LOSTCANCEL", Min: 1, Run: ruleLostCancel,
 		Doc: "every context.WithCancel/WithTimeout/WithDeadline in the repo has its cancel function deferred in the same block, so the per-execution context is cancelled on every return and panic"})
-	register(&Rule{ID: "R-ZEROSTEP", Min: 5, Run: ruleZeroStep,
+	register(&Rule{ID: "R-ZEROSTEP", Min: 3, Run: ruleZeroStep,
 		Doc: "every step cursor advanced by `cursor += f(step)` establishes step != 0 first: either the value stored into the step field is replaced by a non-zero constant when it is zero, or an in-place `if step == 0 { step = c }` dominates the advance (instant queries have step 0 and would never terminate)"})
 	register(&Rule{ID: "R-APIFIELDSYNC", Min: 1, Run: ruleAPIFieldSync,
 		Doc: "a field of compatibilityQuery that is written by one of the concurrently callable API methods {Exec, Cancel, Close} and accessed by another is accessed only between Lock and Unlock of one mutex field of the query"})
@@ -31,7 +31,7 @@ func init() {
 		Doc: "an append whose base slice comes from a parameter of an exported function or from a package-level variable and whose result is kept (stored into a field, a global, or a returned value) must first copy: the base is a fresh slice or a full slice expression"})
 	register(&Rule{ID: "R-INTCONV", Min: 2, Run: ruleIntConv,
 		Doc: "every float-to-integer conversion in execution/... whose operand depends on a value that arrives at run time (a parameter, a field, a slice element) is dominated by a branch that tests that same value (NaN/range check)"})
-	register(&Rule{ID: "R-SAMPLE0", Min: 6, Run: ruleSample0,
+	register(&Rule{ID: "R-SAMPLE0", Min: 4, Run: ruleSample0,
 		Doc: "every read of element 0 of a StepVector's Samples is dominated by a length test of that same Samples slice (a step without a sample delivers an empty vector)"})
 
 	mutant(Mutant{Rule: "R-INITBEFOREUSE", Name: "unary-workers-not-started", File: "execution/unary/unary.go",
